@@ -498,6 +498,9 @@ def ext_cases():
         'gap then step': ((((0,), 'sorry', None, (), ((), A), None), ((1,), 'implies_intr', A, ((0,),), None, None))),
         'hyp left': ((((0,), 'assume', A, (), None, None),)),
         'none': None,
+        # the proof cites the very theorem it is meant to establish (not in the theory before the extension)
+        'cites itself': ((((0,), 'theorem', 'c02_thm', (), None, None),)),
+        'cites itself, then a step': ((((0,), 'theorem', 'c02_thm', (), None, None), ((1,), 'implies_intr', A, ((0,),), None, None))),
     }
     stated = {'AA': ((), AA), 'false': ((), FALSE), 'A': ((), A), 'A|-A': ((A,), A), 'false->false': ((), imp(FALSE, FALSE))}
     for pn, prf in proofs.items():
@@ -521,7 +524,24 @@ def run_ext(case):
         try:
             rpt = thy.checked_extend([ext])
         except Exception as e:
-            return Outcome('ext-refused')
+            # a refused extension must leave nothing behind: neither the statement, nor a way to cite it later
+            if thy.has_theorem('c02_thm'):
+                return Outcome('EXT-REFUSED-BUT-INSTALLED', violation={
+                    'signature': 'ext-lingers:' + repr(case),
+                    'what': 'checked_extend refused theorem %s with proof "%s" (%s), but the theory now contains it' % (
+                        ref.show_thm(th), case[1], type(e).__name__)})
+            ext2 = extension.Theorem('c02_thm2', build_thm(th), prf=build_proof((((0,), 'theorem', 'c02_thm', (), None, None),)))
+            try:
+                rpt2 = thy.checked_extend([ext2])
+                ax2 = [n for n, _ in rpt2.get_axioms()] if hasattr(rpt2, 'get_axioms') else []
+                if thy.has_theorem('c02_thm2') and 'c02_thm2' not in ax2:
+                    return Outcome('EXT-CITES-REFUSED', violation={
+                        'signature': 'ext-cites-refused:' + repr(case),
+                        'what': 'after checked_extend refused %s (proof "%s"), a second extension proves it by citing the refused name' % (
+                            ref.show_thm(th), case[1])})
+            except Exception:
+                pass
+            return Outcome('ext-refused', True)
         installed = thy.has_theorem('c02_thm')
         axioms = [n for n, _ in rpt.get_axioms()] if hasattr(rpt, 'get_axioms') else []
         if not installed:
